@@ -36,7 +36,13 @@ let () = serve (fun fn req ->
   match fn with
   | "build" ->
       let t = tx_of_json (jfield req "tx") in
-      JObj [("raw", of_res of_bytes (build_raw t)); ("id", of_res of_bytes (build_id sha256 t))]
+      let raw = build_raw t in
+      let sizes = match raw with
+        | RErr _ -> JNull
+        | ROk _ -> JObj [("size", of_nat (tx_size t)); ("base_size", of_nat (base_size t));
+                         ("ins", of_list (fun i -> of_nat (in_size i)) t.tx_ins);
+                         ("outs", of_list (fun o -> of_nat (out_size o)) t.tx_outs)] in
+      JObj [("raw", of_res of_bytes raw); ("id", of_res of_bytes (build_id sha256 t)); ("sizes", sizes)]
   | "serialize" -> of_bytes (serialize (tx_of_json (jfield req "tx")))
   | "observe" -> of_res json_of_parsed (observe sha256 (jbytes (jfield req "raw")))
   | "segwit" ->
